@@ -320,6 +320,31 @@ _time_cache = Contract(
 )
 
 # ------------------------------------------------------------------ which modules use the never-invalidated completion cache
+def _replay_cached_name(inp):
+    """the real Completion._complete_trailer around one module value with the given dotted name and number of names"""
+    from pyvc.replay import run_real, raw_function
+    from jedi.api import completion as comp
+
+    class V:
+        string_names = tuple(inp['names'])
+
+        def is_module(self):
+            return True
+
+    class MC:
+        def create_context(self, leaf):
+            return None
+
+    class Self:
+        _module_context = MC()
+
+        def _complete_trailer_for_values(self, values):
+            return ['n%d' % k for k in range(inp['count'])]
+    fn = raw_function(comp, 'Completion._complete_trailer', {'infer_call_of_leaf': lambda ctx, leaf: [V()]})
+    out = run_real(lambda: fn(Self(), None)[0])
+    return {'EXPECTED': inp['names'][0] if inp['names'] in (['numpy'], ['pandas'], ['tensorflow'], ['matplotlib']) else None}, out
+
+
 _cached_name = Contract(
     id='C08.Completion._complete_trailer', prop='C08',
     clause='the process-wide completion cache (keyed by module NAME, never invalidated - known finding F9 for the packages '
@@ -331,6 +356,9 @@ _cached_name = Contract(
     ensures=['implies(result[0] is not None, the(result[0]) in ("numpy", "tensorflow", "matplotlib", "pandas"))',
              'result[1] == self._complete_trailer_for_values(infer_call_of_leaf('
              'self._module_context.create_context(previous_leaf), previous_leaf))'],
+    witness={}, replay=_replay_cached_name, concrete_only=True, concrete_ensures=['result == EXPECTED'],
+    witness_library=[{'names': ['registry'], 'count': 5}, {'names': ['registry'], 'count': 1000}, {'names': ['numpy'], 'count': 5},
+                     {'names': ['acme', 'numpy'], 'count': 5}, {'names': ['pandas', 'core'], 'count': 1000}],
 )
 
 CONTRACTS = [_cached_name, _scope_cache, _def_cache, _cache_node, _filter_init, _sig_key, _time_cache]
